@@ -31,6 +31,7 @@ import (
 )
 
 type vfC10Ctx struct {
+	dataDiverged map[int]bool // keys whose two copies carry different values because of a lingering value of the unheld key
 	part  *vfPart
 	env   *vfEnv
 	caseN int
@@ -706,6 +707,27 @@ type vfC10Answer struct {
 	NoData string
 }
 
+// sameButLingering: field-for-field equality, where the value of a key that nobody held when a
+// request arrived is left out, and stays left out for that key from then on: one copy of the key may
+// still have had the lingering value (reclaimed lazily, in real time) and the other not, so the two
+// copies carry different values although no node decided anything differently.
+func (c *vfC10Ctx) sameButLingering(key int, a, b vfC10Answer) bool {
+	if a.Repr != b.Repr && a.Unheld && b.Unheld && a.NoData == b.NoData {
+		if c.dataDiverged == nil {
+			c.dataDiverged = map[int]bool{}
+		}
+		c.dataDiverged[key] = true
+		c.part.Add("cluster_keys_with_lingering_value_divergence", 1)
+	}
+	if c.dataDiverged[key] && a.NoData == b.NoData && a.NoData != "" {
+		if a.Repr != b.Repr {
+			c.part.Add("cluster_relayed_equal_but_for_the_lingering_value", 1)
+		}
+		return true
+	}
+	return vfC10Same(a, b)
+}
+
 // vfC10Same: field-for-field equality; the lingering value of an unheld key is left out.
 func vfC10Same(a, b vfC10Answer) bool {
 	if a.Repr == b.Repr {
@@ -1154,7 +1176,7 @@ func (cl *vfC10Cluster) probeFirstCommand(phase string, keyBase, nKeys int) bool
 	}
 	c.note("[%s] first text command %s -> at follower: %s | at leader: %s", phase, o.String(), aF.Repr, aR.Repr)
 	cl.learn(o, aR)
-	if !vfC10Same(aF, aR) {
+	if !c.sameButLingering(o.Key, aF, aR) {
 		sig := "relayed-reply-differs-from-leaders"
 		if aF.Result == protocol.RESULT_UNLOCK_ERROR {
 			sig = vfC10SigUnlockLocal
@@ -1214,7 +1236,7 @@ func (cl *vfC10Cluster) pairedScript(phase string, n int, keyBase int, nKeys int
 			return false
 		}
 		c.note("[%s] %s -> follower path: %s | leader: %s", phase, o.String(), aF.Repr, aR.Repr)
-		if !vfC10Same(aF, aR) {
+		if !c.sameButLingering(o.Key, aF, aR) {
 			c.violate("relay-differs", "relayed-reply-differs-from-leaders", "request %q sent through the follower (%s protocol, phase %s) was answered\n  %s\nbut the same script position directly at the leader gives\n  %s", o.String(), map[bool]string{true: "text", false: "binary"}[cl.text], phase, aF.Repr, aR.Repr)
 			return false
 		}
@@ -1377,7 +1399,7 @@ func vfC10ClusterCase(env *vfEnv, part *vfPart, i int) {
 			return
 		}
 		c.note("[ccheck] %s -> follower path: %s | leader: %s", o.String(), aF.Repr, aR.Repr)
-		if !vfC10Same(aF, aR) {
+		if !c.sameButLingering(o.Key, aF, aR) {
 			c.violate("relay-differs", "relayed-reply-differs-from-leaders", "concurrent-check request %q through the caught-up follower was answered\n  %s\nbut directly at the leader\n  %s", o.String(), aF.Repr, aR.Repr)
 			return
 		}
